@@ -25,7 +25,7 @@ func init() {
 			{Pkg: "bkl", Func: "HarnessC01_spine", Tiers: "t", Covers: []string{"merge.accepted", "merge.rejected"},
 				Bound: "3-level spine a.b.{a,b} with the depth-1 map family at the bottom"},
 			{Pkg: "bkl", Func: "HarnessC01_listlist", Tiers: "qt", Covers: []string{"merge.accepted", "merge.rejected"},
-				Bound: "list over list: parent<=2 entries of {scalar,$required,{a},{a,b}}; child<=1 (quick) / <=2 (thorough) entries from all 11 forms (scalar, \"$replace\", {$replace:true}[+extra key], {$delete:p}[+extra], {$match:p,..}, {$match:p,$value:v}[+extra], plain map, bare \"$delete\"); patterns scalar/{}/{a}/{a,$invert}/[s]"},
+				Bound: "list over list: parent<=2 entries of {scalar,$required,{a},{a,b}}; child<=1 (quick) / <=2 (thorough) entries from all 12 forms (scalar, bare \"$required\", \"$replace\", {$replace:true}[+extra key], {$delete:p}[+extra], {$match:p,..}, {$match:p,$value:v}[+extra], plain map, bare \"$delete\"); patterns scalar/{}/{a}/{a,$invert}/[s]"},
 			{Pkg: "bkl", Func: "HarnessC01_listpair", Tiers: "qt", Covers: []string{"merge.accepted", "merge.rejected"},
 				Bound: "two editing list entries in sequence; quick: two $match entries over exactly two parent entries; thorough: pairs from {scalar,$delete,$match,$match+$value} over parent<=2"},
 		},
@@ -68,6 +68,8 @@ func init() {
 		Harnesses: []harnessSpec{
 			{Pkg: "bklr", Func: "HarnessC17_required", Tiers: "qt", Covers: []string{"req.empty", "req.nonempty"},
 				Bound: "one document, maps over {a,b} of depth<=2 with lists<=2 (quick) / depth<=3 with lists<=1 (thorough); leaves: $required, any scalar (thorough: 7 or a fixed string), or one 9-byte string that the solver may make equal to the marker ($-free otherwise)"},
+			{Pkg: "bklr", Func: "HarnessC17_nested", Tiers: "qt", Covers: []string{"req.empty", "req.nonempty"},
+				Bound: "a chain of four nested containers, each a map or a list (lists directly inside lists included), marker or plain leaves beside the chain and at its end"},
 			{Pkg: "bklr", Func: "HarnessC17_layers", Tiers: "qt", Covers: []string{"req.empty", "req.nonempty", "layers.overridden"},
 				Bound: "two layers through Parser.MergeDocument: base depth<=2 with markers, upper layer overriding any subset of marker leaves / appending to lists"},
 		},
@@ -103,7 +105,7 @@ func init() {
 			{Pkg: "bkl", Func: "HarnessC07_clean", Tiers: "qt", Covers: []string{"clean.accepted", "clean.rejected", "clean.layered"},
 				Bound: "C06 skeleton with any $$-free printable string of length <= 6 (quick) / 8 (thorough) at any key/value position and one of 25 directive names/shapes at a second position; one layer or on top of a layer holding $required markers; assertion: a successful evaluation emits no key or string equal to $required or shaped $+lower-case"},
 			{Pkg: "bkl", Func: "HarnessC07_required", Tiers: "qt", Covers: []string{"required.met", "required.unmet"},
-				Bound: "lower layer with $required at any subset of {map value, nested map value, list entry}; upper layer overriding any subset, or mentioning the map without the marker"},
+				Bound: "lower layer with $required at any subset of {map value, nested map value, list entry}; upper layer overriding any subset, mentioning the map without the marker, or appending a marker of its own to the list"},
 			{Pkg: "bkl", Func: "HarnessC07_hidden", Tiers: "qt", Covers: []string{"hidden.checked"},
 				Bound: "an unknown directive-shaped string (every such printable string <= 6 / 9 bytes) as value, key or list entry (next to $required) under $output: false"},
 			{Pkg: "bkl", Func: "HarnessC07_latin1", Tiers: "qt", Covers: []string{"latin1.lower", "latin1.other"},
@@ -169,7 +171,7 @@ func init() {
 		ID: "C10",
 		Harnesses: []harnessSpec{
 			{Pkg: "bkl", Func: "HarnessC10_inline", Tiers: "qt", Covers: []string{"form.mapmerge", "form.replace", "form.listmerge", "inline.accepted", "inline.mergefails"},
-				Bound: "document {t:{x:T,\"p.q\":T2}, h:HOST, o:1}; T any tree of depth<=1 (quick) / 2 (thorough); 9 reference spellings (map $merge with dotted / list path / list path through a dotted key, map $replace, $merge: and $replace: strings, list-entry $merge / $replace, YAML flow-list path); local content any subset of {a,b}; compared with the hand-inlined twin through the same pipeline; the target's own output unchanged"},
+				Bound: "document {<k>:{x:T,\"p.q\":T2}, h:HOST, o:1} where <k> is EVERY lower-case letter (a symbolic byte); T any tree of depth<=1 (quick) / 2 (thorough); 9 reference spellings (map $merge with dotted / list path / list path through a dotted key, map $replace, $merge: and $replace: strings, list-entry $merge / $replace, YAML flow-list path); local content any subset of {a,b}; compared with the hand-inlined twin through the same pipeline; the target's own output unchanged"},
 			{Pkg: "bkl", Func: "HarnessC10_cross", Tiers: "qt", Covers: []string{"cross.unique", "cross.ambiguous"},
 				Bound: "streams of 2-3 documents with ids; $merge/$replace in {$match,$path} form with a dotted-string or list $path and in [pattern, path...] form, target two levels down next to a literal key \"t.u\"; zero, one or two matching documents"},
 			{Pkg: "bkl", Func: "HarnessC10_dangling", Tiers: "qt", Covers: []string{"dangling.checked"},
@@ -231,7 +233,7 @@ func init() {
 		ID: "C02",
 		Harnesses: []harnessSpec{
 			{Pkg: "bkl", Func: "HarnessC02_stream", Tiers: "qt", Covers: []string{"stream.layered", "stream.multi", "stream.rejected"},
-				Bound: "base stream of 1-2 (quick) / 1-3 (thorough) documents (a: any scalar | map [| absent, b]), a further layer of 1-2 documents and an optional probing layer of 1 document; layer documents override/add scalars and maps and carry no $match, $match: null | {} | {a: s} | {a: s, $invert: true}, or $replace: true; parent links as file.setParents sets them; after every MergeDocument: count, order and content equal the functional stream model (private copies), and no two documents share a map or list"},
+				Bound: "base stream of 1-2 (quick) / 1-3 (thorough) documents (a: any scalar | map [| absent, b]), a further layer of 1-2 documents and an optional probing layer of 1 document; layer documents override/add scalars, maps and lists of maps and carry no $match, $match: null | {} | {a: s} | {a: s, $invert: true}, or $replace: true; parent links as file.setParents sets them; after every MergeDocument: count, order and content equal the functional stream model (private copies), and no two documents share a map or list"},
 		},
 		Assume:  pipeAssume,
 		Outside: "4 base documents, 3 further layers, duplicate document IDs, file loading itself (C03)",
@@ -252,7 +254,7 @@ func init() {
 		ID: "C19",
 		Harnesses: []harnessSpec{
 			{Pkg: "bkl", Func: "HarnessC19_history", Tiers: "qt", Covers: []string{"history.repeat", "history.merge", "history.documents", "history.withoutput"},
-				Bound: "1-2 documents from 9 families ($merge, $replace + $merge: string, document $repeat, $encode, $output true/false + list $repeat, interpolation + null, plain, forward cross-document $replace, its target holding a nested $merge), then 3 (quick) / 4 (thorough) calls each chosen from {OutputDocuments, MergeDocument(next layer: add key | change value | change what a nested $merge resolves to | $match: null append), Documents}; a twin parser receives the same merges and is never asked for output"},
+				Bound: "1-2 documents from 10 families ($merge, $replace + $merge: string, document $repeat, $encode, $output true/false + list $repeat, interpolation + null, plain, forward cross-document $replace, its target holding a nested $merge, $merge maps inside a list-valued key), then 3 (quick) / 4 (thorough) calls each chosen from {OutputDocuments, MergeDocument(next layer: add key | change value | change what a nested $merge resolves to | $match: null append), Documents}; a twin parser receives the same merges and is never asked for output"},
 		},
 		Assume:  pipeAssume,
 		Outside: "format-specific Output/OutputToWriter/OutputToFile (they add only the codec to OutputDocuments); MergeFileLayers (C03); more than 4 calls",
@@ -267,7 +269,7 @@ func init() {
 		ID: "C03",
 		Harnesses: []harnessSpec{
 			{Pkg: "bkl", Func: "HarnessC03_chain", Tiers: "qt", Covers: []string{"chain.accepted", "chain.rejected"},
-				Bound: "chains a, a.b, a.b.c (thorough: a.b.c.d) with 1-3 (4) layers, each file under any supported extension (quick: two per file, rotating), contents {v: any scalar, k_i: i}; the same contents as x, y, z wired by $parent; both equal the explicit base-first MergeDocument fold (outputs and error status)"},
+				Bound: "chains a, a.b, a.b.c (thorough: a.b.c.d) - or names that are string-suffixes of one another with one extension (a, a.a, a.a.a; b, a.b, c.a.b) - with 1-3 (4) layers, each file under any supported extension (quick: two per file, rotating), contents {v: any scalar, k_i: i}; the same contents as x, y, z wired by $parent; both equal the explicit base-first MergeDocument fold (outputs and error status)"},
 			{Pkg: "bkl", Func: "HarnessC03_missing", Tiers: "qt", Covers: []string{"missing.checked"},
 				Bound: "any one non-top layer of a 2-3 layer chain missing; a $parent naming no file"},
 			{Pkg: "bkl", Func: "HarnessC03_parentforms", Tiers: "qt", Covers: []string{"forms.none", "forms.list", "forms.wildcard", "forms.invalid"},
